@@ -8,6 +8,7 @@ oracle_c16 — line protocol (one world per script; the first line (re)initialis
   `burst <n>` (1..8 attempts back to back) → `r=acc<a>,rej<r>[,lost<l>]`, then the world
   `send <k> <hex|->`                  → `r=ok` | `r=closed`, then the world
   `close|pclose|drain|hold|pdata|rerr|rto|herr|rdl|hpanic|hpanicnil|werr|wto|wdl|start|cerr|uh|xpanic|xblock <k>` → `r=ok`, then the world
+  `wpart|wtemp <k> <n>` (partial write of n bytes, then timeout | temporary error) → `r=ok`, then the world
   `aerr` (temporary Accept error) | `afail` (permanent Accept error) → `r=run` | `r=stop`, then the world
   `stress <kind> <seed>`              → `r=done`, then the world (the scenario is judged by the monitors only)
 World: ` n=<ConnCount> rej=<closed on accept> / <k>:x<OnExit calls>,c<conn.Close calls>,l<live loops>,d=<hex read by peer>,rd=<handler reads>`
@@ -158,6 +159,12 @@ def step (st : OState) (line : String) : OState × String :=
     | "werr", [k] => onSess st k (envs [.writeFail])
     | "wto", [k] => onSess st k (envs [.writeFail])
     | "wdl", [k] => onSess st k (envs [.writeFail])
+    | "wpart", [k, n] | "wtemp", [k, n] =>
+      -- the next / current Write hands n bytes (fewer than the item) to a reading peer, then fails with a timeout
+      -- (`wpart`) or another temporary error (`wtemp`)
+      match n.toNat? with
+      | some n => onSess st k (envs [.writeFailAfter n])
+      | none => (st, "bad-op")
     | "start", [k] => onSess st k (envs [])
     | "cerr", [k] => onSess st k (envs [])   -- conn.Close() will report an error: logged only
     | "uh", [k] => onSess st k (envs [])     -- UpdateHandler(another handler with the same behaviour)
